@@ -141,7 +141,7 @@ class State(object):
         s.live_heap = 0
         s.peak_heap = 0
         s.switch = False
-        s.watch = {}         # object base -> [lo, hi, set(written offsets), tag]
+        s.watch = {}         # object base -> [lo, hi, set(written offsets), tag, set(read offsets)]
         s.cmodel = None      # concolic mode: concrete witness {var name: value} whose path is followed
         s.preempts = 0
         s.sync_points = 0
@@ -183,7 +183,7 @@ class State(object):
         n.live_heap = s.live_heap
         n.peak_heap = s.peak_heap
         n.switch = s.switch
-        n.watch = {k: [v[0], v[1], set(v[2]), v[3]] for k, v in s.watch.items()}
+        n.watch = {k: [v[0], v[1], set(v[2]), v[3], set(v[4])] for k, v in s.watch.items()}
         n.cmodel = s.cmodel
         n.preempts = s.preempts
         n.sync_points = s.sync_points
@@ -241,6 +241,32 @@ class Solver(object):
         s.unsat = 0
         s.time = 0.0
         s.maxq = 0.0
+        s.cross_budget = 0       # number of queries still to be cross-checked with cvc5 in this run
+        s.cross_every = 37
+        s.cross_done = 0
+        s.cross_disagree = 0
+
+    def crosscheck(s, z3_sat):
+        """second opinion from cvc5 on the query that is on the solver stack right now (sampled)"""
+        import subprocess
+        import tempfile
+        s.cross_budget -= 1
+        try:
+            txt = '(set-logic QF_BV)\n' + s.s.to_smt2()
+            with tempfile.NamedTemporaryFile('w', suffix='.smt2', delete=False) as f:
+                f.write(txt)
+                path = f.name
+            r = subprocess.run(['cvc5', '--lang=smt2', '--tlimit=20000', path], stdout=subprocess.PIPE, stderr=subprocess.PIPE,
+                               text=True, timeout=40)
+            import os
+            os.unlink(path)
+            ans = r.stdout.strip().split('\n')[0] if r.stdout.strip() else ''
+            if ans in ('sat', 'unsat'):
+                s.cross_done += 1
+                if (ans == 'sat') != bool(z3_sat):
+                    s.cross_disagree += 1
+        except Exception:
+            pass
 
     def sync(s, pc):
         t = s.trail
@@ -282,6 +308,8 @@ class Solver(object):
         elif r == s.z3.unsat:
             s.unsat += 1
             res = (False, None)
+        if s.cross_budget > 0 and res is not None and (s.queries % s.cross_every) == 0:
+            s.crosscheck(res[0])
         s.s.pop()
         dt = time.time() - t0
         s.time += dt
@@ -751,10 +779,10 @@ class Executor(object):
                     if o.owner != st.id:
                         o = o.clone(st.id)
                         st.objs[o.base] = o
-                if write and st.watch:
+                if st.watch:
                     w = st.watch.get(o.base)
                     if w is not None:
-                        w[2].update(range(off, off + n))
+                        (w[2] if write else w[4]).update(range(off, off + n))
                 if s.race_detect and len(st.threads) > 1:
                     s.race_check(st, o, off, n, write)
                 if s.trace_mem is not None:
